@@ -15,6 +15,7 @@
 //	%fi  a FHIR integer
 //	Patient: id, language, implicitRules, name[0].family, name[0].given (x2),
 //	         extension[0].valueMarkdown all hold the receiver string
+//	         (and gender, an enum-backed code, for the elGender receiver)
 //
 // Nothing here decides what is right: the observation is the projected outcome.
 package main
@@ -107,7 +108,7 @@ func fhirString(kind, s string) (proto.Message, bool) {
 // patientJSON is the Patient every element receiver is read from, as FHIR
 // JSON (parsed with jsonformat, no validation). The id is set on the parsed
 // message afterwards: jsonformat checks the id grammar even without validation.
-func patientJSON(s string) []byte {
+func patientJSON(s string, gender bool) []byte {
 	m := map[string]any{
 		"resourceType":  "Patient",
 		"language":      s,
@@ -115,6 +116,9 @@ func patientJSON(s string) []byte {
 		"active":        true,
 		"name":          []any{map[string]any{"family": s, "given": []any{s, s}}},
 		"extension":     []any{map[string]any{"url": "http://example.org/note", "valueMarkdown": s}},
+	}
+	if gender {
+		m["gender"] = s // a required binding: s must be one of the four administrative-gender codes
 	}
 	b, err := json.Marshal(m)
 	if err != nil {
@@ -205,7 +209,11 @@ func main() {
 		if needsPatient(c.Rk) {
 			var p proto.Message
 			if s != "" {
-				if m, err := lib.ParseResource(patientJSON(s)); err == nil {
+				m, err := lib.ParseResource(patientJSON(s, c.Rk == "elGender"))
+				if err != nil && c.Rk == "elGender" {
+					lib.Fatal("case %s: cannot build a Patient with gender %q: %v", g.ID, s, err)
+				}
+				if err == nil {
 					if pt, ok := m.(*ppb.Patient); ok {
 						pt.Id = &dtpb.Id{Value: s}
 						p, how = pt, "jsonformat"
